@@ -306,7 +306,7 @@ pub fn parse_statement(
     };
     if let Some(rest) = thread_rest {
         *line_index += 1;
-        let divert = parse_divert(rest).map_err(|e| e.with_line(ln))?;
+        let divert = parse_thread_divert(rest).map_err(|e| e.with_line(ln))?;
         return Ok(ParsedStatement::Nodes(vec![Node::ThreadDivert(divert)]));
     }
 
